@@ -500,6 +500,9 @@ func GenCase(r *rand.Rand, thorough bool) *Case {
 		k.NSets = 3 + r.IntN(4)
 	}
 	m := progen.Generate(r, k)
+	if r.IntN(4) == 0 {
+		m.AddSharedValue()
+	}
 	c := &Case{Kind: "gen", Module: m, AutoSites: r.IntN(3) == 0}
 	if r.IntN(3) == 0 {
 		c.Header = "// Copyright 2026 Example Authors. All rights reserved.\n\n"
@@ -512,6 +515,9 @@ func GenCase(r *rand.Rand, thorough bool) *Case {
 		k.NSets = 0
 		c.Module = progen.Generate(r, k)
 		m = c.Module
+		if r.IntN(2) == 0 {
+			m.AddSharedValue()
+		}
 		c.Header = "// Tiny.\n\n"
 	}
 	var pkgs []string
